@@ -19,11 +19,10 @@ mod verif_kani {
         let t0: u64 = kani::any();
         let t1: u64 = kani::any();
         let t: u64 = kani::any();
-        let n: u8 = kani::any();
-        kani::assume(n <= 2);
+        let n: u8 = 2;
         let mut heads = AuthorHeads::default();
-        if n >= 1 { heads.heads.insert(author(b0), t0); }
-        if n >= 2 { heads.heads.insert(author(b1), t1); }
+        heads.heads.insert(author(b0), t0);
+        heads.heads.insert(author(b1), t1);
         let before = heads.clone();
         heads.insert(author(b), t);
         let expect = match before.get(&author(b)) {
